@@ -306,9 +306,10 @@ func (e *c09Env) runCase(c c09Case, rnd *rand.Rand) {
 			cl.Lock()
 			cl.SetOwnerLocked(fakecluster.Slot([]byte(key)), cl.Nodes[1]) // the proxy's table is stale: node 0 answers MOVED to node 1
 			cl.Unlock()
+			// armed first: the lost connection also triggers a slots refresh, which may be the one that connects to node 1 again
+			s.HookArm(lateHook, sutc.HookAction{Mode: "park", Times: 1})
 			cl.Nodes[1].KillConns(true) // no client for node 1 any more
 			time.Sleep(40 * time.Millisecond)
-			s.HookArm(lateHook, sutc.HookAction{Mode: "park", Times: 1})
 			if cc, err := net.DialTimeout("tcp", addr, 2*time.Second); err == nil {
 				clients = append(clients, cc)
 				cc.Write(resp.CmdS("SET", key, "v"))
